@@ -107,22 +107,112 @@ def unit(item):
     return p
 
 
+def _sequences(n_items, q):
+    import itertools
+
+    return list(itertools.permutations(range(n_items), q))
+
+
+def unit_mixed(item):
+    """FLP / MCP carry the quota per instance (`to_choose`, `n_sets_to_choose`): in a batch whose rows have DIFFERENT
+    quotas every row must raise its finish flag exactly at its own quota.  All pairs of selection orders of two small
+    instances with different quotas are stepped in lock-step on the real env.step (a finished row keeps taking the
+    first item still on offer; what happens to it after its quota is C02/C04's business and not judged here)."""
+    _, key, tier, seed = item
+    spec = SPECS[key]
+    p = Partial()
+    insts = [x for x in spec.instances(tier, seed)]
+    by_shape = {}
+    for iid, inst in insts:
+        td = spec.td(inst)
+        by_shape.setdefault(tuple((k, tuple(v.shape[1:])) for k, v in sorted(td.items())), []).append((iid, inst, td))
+    pairs = []
+    for g in by_shape.values():
+        qs = {}
+        for x in g:
+            qs.setdefault(quota_of(spec, x[1]), x)
+        ql = sorted(qs)
+        for i in range(len(ql)):
+            for j in range(len(ql)):
+                if i != j and max(ql[i], ql[j]) <= 3:
+                    pairs.append((qs[ql[i]], qs[ql[j]]))
+    pairs = pairs[: 6 if tier == "quick" else 30]
+    for (ia, insta, tda), (ib, instb, tdb) in pairs:
+        qa, qb = quota_of(spec, insta), quota_of(spec, instb)
+        n_items = tda["action_mask"].shape[-1] if "action_mask" in tda.keys() else None
+        env = spec.env(insta if qa >= qb else instb)
+        td00 = env.reset(torch.cat([tda, tdb], 0))
+        n_items = td00["action_mask"].shape[-1]
+        T = max(qa, qb)
+        for sa in _sequences(n_items, qa):
+            for sb in _sequences(n_items, qb):
+                td = td00.clone()
+                ok = True
+                hist = []
+                for t in range(T):
+                    mask = td["action_mask"]
+                    acts = []
+                    for r, (sq, q) in enumerate(((sa, qa), (sb, qb))):
+                        if t < q:
+                            acts.append(sq[t])
+                        else:
+                            offered = mask[r].nonzero().flatten().tolist()
+                            acts.append(offered[0] if offered else 0)
+                    hist.append(list(acts))
+                    if not all(bool(mask[r, acts[r]]) for r, q in ((0, qa), (1, qb)) if t < q):
+                        ok = False  # not a mask-admitted pair of orders (cannot happen for distinct items)
+                        break
+                    td = E.step_batch(env, td, acts)
+                    done = E.done_vec(td).tolist()
+                    for r, (q, iid) in enumerate(((qa, ia), (qb, ib))):
+                        if t + 1 <= q and done[r] != (t + 1 >= q):
+                            p.violation(
+                                sig(PID, spec, "done", "mixed_quota_batch"),
+                                dict(kind="sel_mixed", spec=spec.key, a=dict(instance_id=ia, instance=insta), b=dict(instance_id=ib, instance=instb), actions=hist),
+                                f"{spec.key}: batch [{ia} (quota {qa}), {ib} (quota {qb})], joint actions {hist}: row {r} reports done={done[r]} after {t + 1} selections, its own quota is {q}",
+                            )
+                            ok = False
+                    if not ok:
+                        break
+                p.add(states=T, transitions=T, evaluations=1, distinct_count=1, traces_validated_against_impl=1)
+        p.outcome(f"{spec.key}|mixed|{qa}|{qb}")
+    return p
+
+
+def dispatch(item):
+    return unit_mixed(item) if item[0] == "mixed" else unit(item)
+
+
 def main(tier):
     rep = Report(PID, tier, rule="one case = one reachable state (selection prefix) of one instance, judged for distinctness / forbidden items / done-at-quota / bookkeeping; distinct = distinct (environment, instance, prefix)")
     rep.assumptions = [
         "DPP/MDPP run on synthetic chip files (3x3, 4x4) written to /verif/.cache because the real chip data cannot be downloaded; the decap reward simulator is out of scope",
-        "all rows of a batch share the quota (the generators never mix quotas)",
+        "the exhaustive per-instance trees use batches whose rows share the quota (the generators never mix quotas); batches with DIFFERENT per-row quotas (FLP, MCP) are stepped separately and judged only up to each row's own quota",
     ]
     seed = seed_from_env()
     only = os.environ.get("VERIF_ONLY")
     items = [(k, tier, seed) for k in SPECS if not only or only in k]
-    rep.merge_all(pmap(unit, items))
-    rep.extra["environments"] = sorted(i[0] for i in items)
+    items += [("mixed", k, tier, seed) for k in ("flp", "mcp") if not only or only in k]
+    rep.merge_all(pmap(dispatch, items))
+    rep.extra["environments"] = sorted({i[0] if i[0] != "mixed" else i[1] for i in items})
     return rep.finish()
 
 
 def replay(rec):
     spec = SPECS[rec["spec"]]
+    if rec.get("kind") == "sel_mixed":
+        insta, instb = rec["a"]["instance"], rec["b"]["instance"]
+        qa, qb = quota_of(spec, insta), quota_of(spec, instb)
+        env = spec.env(insta if qa >= qb else instb)
+        td = env.reset(torch.cat([spec.td(insta), spec.td(instb)], 0))
+        bad = []
+        for t, acts in enumerate(rec["actions"]):
+            td = E.step_batch(env, td, acts)
+            done = E.done_vec(td).tolist()
+            for r, q in enumerate((qa, qb)):
+                if t + 1 <= q and done[r] != (t + 1 >= q):
+                    bad.append(f"row {r}: done={done[r]} after {t + 1} selections, own quota {q}")
+        return bool(bad), "; ".join(bad) or "every row finishes at its own quota"
     inst = rec["instance"]
     env = spec.env(inst)
     td, masks, dones = E.run_solo(env, spec.td(inst), rec["actions"])
